@@ -391,6 +391,19 @@ func (s *Session) detachSession(fromTopic string) {
 	}
 }
 
+// detachFromTopic handles a queued request to unlink the session from a topic.
+func (s *Session) detachFromTopic(topic string) {
+	if globals.hub != nil {
+		if t := globals.hub.topicGet(topic); t != nil && !t.isProxy && !t.isInactive() {
+			// A live master topic unlinks its sessions directly and queues a request only when it
+			// terminates. If the topic is loaded and active now, the request comes from a previous
+			// incarnation of the topic and the session has attached to the new one since: ignore it.
+			return
+		}
+	}
+	s.delSub(topic)
+}
+
 func (s *Session) stopSession(data any) {
 	// The channel is buffered by 1 to make the request non-blocking, but the write loop reads at most
 	// one request before it exits: a second request (e.g. account eviction and connection cleanup)
